@@ -374,6 +374,48 @@ func init() {
 		w.P("/-- connection.go newConnection + server.go: the generator of a server connection is created with exactly the two connection IDs that Transport.AddWithConnID routes to it -/")
 		w.P("def serverGeneratorTracksRoutedIDs : Bool := %v", glue)
 
+		// 7. path_manager.go: `const maxPaths = <int>`, `const pathTimeout = <int> * time.Second`
+		pmf, err := parse("path_manager.go")
+		if err != nil {
+			return err
+		}
+		maxPaths, pathTimeout := "", ""
+		for _, d := range pmf.Decls {
+			gd, ok := d.(*ast.GenDecl)
+			if !ok || gd.Tok != token.CONST {
+				continue
+			}
+			for _, sp := range gd.Specs {
+				vs := sp.(*ast.ValueSpec)
+				for i, n := range vs.Names {
+					if i >= len(vs.Values) {
+						continue
+					}
+					switch n.Name {
+					case "maxPaths":
+						if v, err := evalInt(vs.Values[i]); err == nil {
+							maxPaths = v
+						}
+					case "pathTimeout":
+						if be, ok := vs.Values[i].(*ast.BinaryExpr); ok && be.Op == token.MUL {
+							if types.ExprString(be.Y) == "time.Second" {
+								if v, err := evalInt(be.X); err == nil {
+									pathTimeout = v + "000000000"
+								}
+							}
+						}
+					}
+				}
+			}
+		}
+		if maxPaths == "" || pathTimeout == "" {
+			return fmt.Errorf("path_manager.go: maxPaths / pathTimeout not found in the expected shape")
+		}
+		w.P("/-- path_manager.go -/")
+		w.P("def maxPaths : Int := %s", maxPaths)
+		w.P("/-- path_manager.go (nanoseconds) -/")
+		w.P("def pathTimeout : Int := %s", pathTimeout)
+
 		w.P("/-- u_parrot.go: every `tls.ActiveConnectionIDLimit(n)` of the built-in QUIC specs (a spec without it advertises the default) -/")
 		w.P("def parrotAdvertisedLimits : List Int := [%s]", strings.Join(parrot, ", "))
 		return nil
